@@ -23,9 +23,9 @@ FV == <<"value", "", 0>>
 S == Node("sum", NoF)
 SeqsUpTo(n, X) == UNION { [1..k -> X] : k \in 0..n }
 
-Cells(rich) == { Row(g, FALSE, v) : g \in 1..2, v \in {Single(pU), Single(pH), Single(pR)}
+Cells(rich, nulls) == { Row(g, FALSE, v) : g \in 1..2, v \in {Single(pU), Single(pH), Single(pR)}
                                                   \cup (IF rich THEN {AddPos(Single(pU), pK), EmptyInv} ELSE {}) }
-               \cup { Row(g, TRUE, EmptyInv) : g \in 1..2 }
+               \cup { Row(g, TRUE, EmptyInv) : g \in (IF nulls THEN 1..2 ELSE {1}) }
 NodeLists(rich) ==
     { <<S>>, <<S, S>>, <<S, Node("fsum", FU)>>, <<Node("fsum", FC), S>>, <<Node("fsum", FU), Node("sumf", FU)>> }
     \cup (IF rich THEN { <<S, Node("sumf", FC), Node("fsum", FC)>>, <<Node("sumf", FV), S, Node("fsum", FV)>>,
@@ -35,13 +35,16 @@ Stmts(rich) == { s \in { Stmt(nl, gr, hv) : nl \in NodeLists(rich), gr \in BOOLE
 
 (* sets behind an operator with a parameter: not evaluated at the startup of the other configurations *)
 (* histories: what has been executed before (one of a few shapes: one node, two nodes over the same operand grouped,
-   f of the sum next to the sum of f with HAVING), then any statement *)
-Before == { Stmt(<<S>>, FALSE, FALSE), Stmt(<<S, S>>, TRUE, FALSE),
-            Stmt(<<Node("fsum", FU), Node("sumf", FU)>>, TRUE, TRUE) }
-Plans(rich) == { b \o <<s>> : b \in [1..(HistLen - 1) -> Before], s \in Stmts(rich) }
-Init == InitWith(SeqsUpTo(MaxRows, Cells(RichCells)), Plans(Rich))
+   in the rich instance also f of the sum next to the sum of f with HAVING), then any statement *)
+Before(rich) == { Stmt(<<S>>, FALSE, FALSE), Stmt(<<S, S>>, TRUE, FALSE) }
+                \cup (IF rich THEN { Stmt(<<Node("fsum", FU), Node("sumf", FU)>>, TRUE, TRUE) } ELSE {})
+Plans(rich) == { b \o <<s>> : b \in [1..(HistLen - 1) -> Before(rich)], s \in Stmts(rich) }
+Init == InitWith(SeqsUpTo(MaxRows, Cells(RichCells, Rich)), Plans(Rich))
 (* the counterexample family only (non-vacuity run on the Adopt mechanism) *)
-InitSmall == InitWith(SeqsUpTo(2, Cells(FALSE)), [1..2 -> {Stmt(<<S>>, FALSE, FALSE), Stmt(<<S, S>>, FALSE, FALSE)}])
+InitSmall == InitWith(SeqsUpTo(2, Cells(FALSE, FALSE)), [1..2 -> {Stmt(<<S>>, FALSE, FALSE), Stmt(<<S, S>>, FALSE, FALSE)}])
+
+(* ... and with one aggregate node only: the damage shows when a statement is executed the second time *)
+InitHist == InitWith(SeqsUpTo(2, Cells(FALSE, FALSE)), [1..2 -> {Stmt(<<S>>, FALSE, FALSE), Stmt(<<S>>, TRUE, FALSE)}])
 
 (* the laws of InvSum on the tables of this instance, once per table (in its initial state) *)
 LawsInv ==
